@@ -45,6 +45,7 @@ type cctx struct {
 	nontriv bool
 	h       uint64
 	jbytes  int
+	begun   bool
 	sample  any // a written-out input of this case for the evidence
 }
 
@@ -57,6 +58,10 @@ const journalWindow = 2600
 func (c *cctx) begin(desc string) {
 	c.desc = desc
 	rec.Begin(c.idx, desc)
+	if c.begun { // a more precise description of the same case: counted once
+		rec.Count("cases_begun", -1)
+	}
+	c.begun = true
 	c.jbytes = 0
 }
 
@@ -64,6 +69,7 @@ func (c *cctx) begin(desc string) {
 func (c *cctx) step(s string) {
 	if c.jbytes+len(s) > journalWindow {
 		rec.Begin(c.idx, c.desc+" (continued)")
+		rec.Count("cases_begun", -1) // same case: keep the driver's begun-versus-planned comparison exact
 		c.jbytes = 0
 	}
 	rec.Step(s)
@@ -299,7 +305,8 @@ func TestCheck(t *testing.T) {
 	}
 	idx := 0
 	layout := map[string]any{}
-	for _, g := range plan() {
+	sampled := map[string]bool{}
+	for gi, g := range plan() {
 		layout[g.name] = map[string]int{"first_case": idx, "cases": g.n}
 		for k := 0; k < g.n; k++ {
 			i := idx
@@ -314,12 +321,14 @@ func TestCheck(t *testing.T) {
 			flushCounters()
 			if c.calls > 0 {
 				rec.CaseN(i, fmt.Sprintf("%s/%016x", g.name, c.h), c.nontriv, int64(c.calls))
-				if rec.WantSample() && k%97 == 3 {
+				// a few written-out cases: at most one per group, different groups in different children
+				if !sampled[g.name] && (gi+bi)%4 == 0 && c.sample != nil && rec.WantSample() {
+					sampled[g.name] = true
 					rec.Sample(map[string]any{"case": i, "group": g.name, "calls": c.calls, "base_input": c.sample})
 				}
 			}
 		}
 	}
-	rec.Note("planned_cases", idx)
+	rec.Planned(idx)
 	rec.Note("plan_layout", layout)
 }
